@@ -635,8 +635,8 @@ def r_cache_store(ctx):
         for c in mc:
             for (pt, d, v, s) in writes(c):
                 if M.is_param(d, index=1) and d[1] == c.name:
-                    items = v[1] if isinstance(v, tuple) and v[0] == 'max' else ()
-                    good = len(items) == 2 and any(new(x) for x in items) and any(x == d for x in items)
+                    cands_ = guarded_update(c, pt, d, v, 'max')        # *e = max(*e, new)  or  if new > *e { *e = new }
+                    good = len(cands_) == 1 and new(inline_helpers(ctx.F, cands_[0]))
     else:
         # spelling 2: match entry(k) { Occupied(e) => *e.get_mut() = max(new, *e.get_mut()),  Vacant(e) => e.insert(new) }
         vac, occ = arm('Vacant'), arm('Occupied')
@@ -655,6 +655,9 @@ def r_cache_store(ctx):
             items = v[1] if isinstance(v, tuple) and v[0] == 'max' else ()
             r = up.reach(occ, avoid=[pt])
             good = len(items) == 2 and any(new(x) for x in items) and any(cur(x) for x in items) and not any(p in r for p in rets)
+            if not good:
+                cands_ = guarded_update(up, pt, d, v, 'max')
+                good = len(cands_) == 1 and new(cands_[0])
     ctx.check(good, 'R18.b', 'cache/update-is-max', up, up.loc(0), 'an occupied key is replaced by Ord::max(new, old) in (value, explored) order: a stored threshold never decreases',
               'the occupied-key update is not *e = max(Threshold{value, explored}, *e) on every path of the occupied case')
     # T11: Threshold derives Ord/PartialOrd with field order (value, explored)
@@ -687,6 +690,9 @@ def r_cache_store(ctx):
     for it in iterations(ctx, ca):
         if not M.is_field(it['src'], 'thresholds_by_layer', 'SimpleCache'):
             continue        # skip / take / filter / a sub-slice are not element-preserving adaptors: src would not be the bare field
+        if it['kind'] == 'for_each_fn':
+            good = good or (it['fn'].startswith('dashmap::DashMap') and it['fn'].endswith('::clear'))       # .for_each(DashMap::clear)
+            continue
         w = it['where']
         cps = [w.term_point(bb) for (bb, t) in w.calls_to('clear') if it['is_item'](w.origin.operand(t['args'][0], w.term_point(bb)))]
         if every_iteration_does(it, cps):
